@@ -369,7 +369,41 @@ pub fn run(tier: &str) -> i32 {
             out
         })
         .collect();
-    rep.eval((specs.len() * 2) as u64);
+    // a rewritten foreign archive must equal the archive built in memory from the same tiles, metadata and settings
+    let bad2: Vec<(usize, Api, String)> = specs
+        .par_iter()
+        .enumerate()
+        .flat_map_iter(|(i, s)| {
+            let f = foreign::build(s);
+            let mut l = Logical::new(super::util::comp_of_code(s.comp).unwrap());
+            for (id, (o, len)) in f.expected.iter() {
+                l.tiles.insert(*id, f.bytes[*o as usize..(*o + u64::from(*len)) as usize].to_vec());
+            }
+            l.meta = foreign::expected_meta(s);
+            let h = &f.header;
+            l.settings.tile_type = super::util::tt_of_code(h.tile_type).unwrap();
+            l.settings.tile_compression = super::util::comp_of_code(h.tile_compression).unwrap();
+            l.settings.min_zoom = h.min_zoom;
+            l.settings.max_zoom = h.max_zoom;
+            l.settings.center_zoom = h.center_zoom;
+            for (k, c) in h.coords().iter().enumerate() {
+                l.settings.coords[k] = crate::spec::latlng::stored_to_deg(*c);
+            }
+            let mut out = Vec::new();
+            for api in APIS {
+                match (rewrite_bytes(&f.bytes, api), write_lib(&l, api)) {
+                    (Ok(a), Ok(b)) if a == b => {}
+                    (Ok(a), Ok(b)) => out.push((i, api, format!("the re-written foreign archive differs from the same content written from memory ({})", first_diff(&a, &b)))),
+                    (Err(e), _) | (_, Err(e)) => out.push((i, api, e)),
+                }
+            }
+            out
+        })
+        .collect();
+    for (i, api, d) in bad2 {
+        rep.violation("foreign-rewrite-not-canonical", format!("[{}] {d}", api.name()), specs[i].to_json());
+    }
+    rep.eval((specs.len() * 4) as u64);
     rep.count("foreign_rewrites", specs.len() as u64);
     for (i, api, d) in bad {
         rep.violation("rewrite-changes-bytes/foreign", format!("[{}] {d}", api.name()), specs[i].to_json());
